@@ -1,0 +1,17 @@
+//go:build verif
+
+package state
+
+// Contracts of the node's state store (checked by /verif/gocv; comment-only file).
+//
+// A node that was killed and started again opens the same directory (C13):
+//  * the read offset is initialised only when the store holds none - a restart keeps the stored offset;
+//  * the database is opened with goleveldb's default options: the default recovery drops a torn last journal record
+//    (a kill in the middle of a write) and resumes, the strict modes refuse to open the store at all. What goleveldb
+//    does with the options is an assumed dependency; that the defaults are what it gets is checked here.
+//@ func NewLevelDBState
+//@   nosafety
+//@   safety C13
+//@   modifies *
+//@   assert@call OpenFile[C13.open.tolerant] o == nil
+//@   assert@call Put[C13.restart.offset] loc(err) != nil
